@@ -381,6 +381,71 @@ def check_text(tag, text, kind, seed, acc):
     acc.count('rows_compared', len(rows))
 
 
+# ---- sub-queries on a Beancount-backed connection: the enclosing query's OPEN / CLOSE / CLEAR must not leak -----------
+
+def ledger_statements():
+    import datetime
+    acc, num, date_ = col('account'), col('number'), col('date')
+    subs = {
+        'from-filter': select([(acc, None)], from_=A.From(A.Equal(col('year'), C(2019)), None, None, None), where=A.Greater(num, C(100))),
+        'from-date-filter': select([(acc, None)], from_=A.From(A.GreaterEq(date_, C(datetime.date(2019, 2, 1))), None, None, None)),
+        # (a sub-query WITHOUT a FROM clause inherits the enclosing query's current table, qualifiers included: whether
+        #  "the subquery" then means the text run alone or in that context is not specified -> not generated here)
+        'own-close': select([(acc, None)], from_=A.From(None, None, datetime.date(2019, 2, 1), None)),
+        'from-subquery': select([(col('a'), None)], from_=select([(acc, 'a')], from_=A.From(A.Equal(col('month'), C(1)), None, None, None))),
+    }
+    outers = {
+        'plain': None,
+        'open': A.From(None, datetime.date(2019, 2, 1), None, None),
+        'close': A.From(None, None, datetime.date(2019, 2, 2), None),
+        'open-close-clear': A.From(None, datetime.date(2019, 1, 10), datetime.date(2019, 3, 1), True),
+        'clear': A.From(None, None, None, True),
+        'filter-close': A.From(A.Equal(col('year'), C(2019)), None, True, None),
+    }
+    out = []
+    for (sn, sub), (on, frm) in itertools.product(subs.items(), outers.items()):
+        for op in (A.In, A.NotIn):
+            out.append((f'{sn}|{on}|{op.__name__}|target', sub, select([(acc, None), (op(acc, sub), 'm')], from_=frm)))
+            out.append((f'{sn}|{on}|{op.__name__}|where', sub, select([(acc, None), (num, None)], from_=frm, where=op(acc, sub))))
+    return out
+
+
+def check_ledger(acc_, only=None):
+    """x IN (subquery) on ledger tables == membership in the subquery's own output (run alone on a fresh connection),
+    whatever OPEN / CLOSE / CLEAR the enclosing query carries."""
+    from .. import sample_ledger
+    for tag, sub, stmt in ledger_statements():
+        if only is not None and tag != only:
+            continue
+        acc_.count('executions')
+        acc_.count('ledger_in_statements')
+        case = {'kind': 'ledger-in', 'tag': tag}
+        try:
+            members = [r[0] for r in sample_ledger.connect().execute(sub).fetchall()]
+            # the enclosing query without the IN expression gives the rows and the left operands
+            base = select([(col('account'), None), (col('number'), None)], from_=stmt.from_clause)
+            baserows = sample_ledger.connect().execute(base).fetchall()
+            got = sample_ledger.connect().execute(stmt).fetchall()
+        except Exception as e:
+            acc_.violation(f'crash:{crash_fingerprint(e)}', f'{show(stmt)} raised {type(e).__name__}: {e}', case)
+            continue
+        neg = '|NotIn|' in tag
+
+        def member(x):
+            if x is None or not members:
+                return None
+            return (x not in members) if neg else (x in members)
+        if tag.endswith('|target'):
+            exp = [(a, member(a)) for a, n in baserows]
+        else:
+            exp = [(a, n) for a, n in baserows if member(a) is True]
+        if [tuple(map(typed, r)) for r in got] != [tuple(map(typed, r)) for r in exp]:
+            sn, on, opn, place = tag.split('|')
+            acc_.violation(f'ledger-in:{on}|{sn}', f'{show(stmt)}: got {got[:6]!r}; membership in the sub-query\'s own output {sorted(set(members))!r} gives {exp[:6]!r}', case)
+            continue
+        acc_.count('rows_compared', len(got))
+
+
 def shard_fn(shard, nshards, seed, tier):
     acc = Acc()
     js = jobs(seed)
@@ -406,6 +471,8 @@ def shard_fn(shard, nshards, seed, tier):
     if shard == 0:
         for tag, text, kind in TEXTS:
             check_text(tag, text, kind, seed, acc)
+    if shard == 1 % nshards:
+        check_ledger(acc)
     return acc
 
 
@@ -413,6 +480,8 @@ def replay(c):
     acc = Acc()
     if c['kind'] == 'nested':
         run_job(tuple(c['job']), c['seed'], acc, tuple(c['variant']) if c.get('variant') is not None else None)
+    elif c['kind'] == 'ledger-in':
+        check_ledger(acc, only=c['tag'])
     elif c['kind'] == 'in':
         for tag, stmt in in_statements():
             if tag == c['tag']:
@@ -436,7 +505,7 @@ def run(ctx):
         'bound': f'{len(inner_menu())} inner queries x generated outer menu (10-25 per inner), depth 2 complete; depth 3 with '
                  f'{"4 of 8" if ctx.quick else "all 8"} wrappers; {len(in_statements())} IN statements; {len(TEXTS)} text statements',
         'data_variants_of_t (fixed table + all row sequences of length <= L over 9 letters)': sorted(acc.sets['variants']),
-        'depth2': n['depth2'], 'depth3': n['depth3'], 'in_statements': n['in_statements'], 'text_statements': n['text_statements'],
+        'depth2': n['depth2'], 'depth3': n['depth3'], 'in_statements': n['in_statements'], 'ledger_in_statements': n['ledger_in_statements'], 'text_statements': n['text_statements'],
         'reference_compared': n['ref_compared'], 'reference_unsupported': n['ref_unsupported'], 'both_rejected': n['both_rejected'],
         'empty_results': n['empty_results'], 'in_null_cells': n['in_null_cells'],
         'samples': acc.samples,
